@@ -24,6 +24,7 @@ def parseEv (t : String) : Option Ev :=
   | ["v", "au"] => some (.pushVer .auth)
   | ["v", "fa"] => some (.pushVer .fail)
   | ["v", "ha"] => some (.pushVer .hang)
+  | ["v", "ol"] => some (.pushVer .okLost)
   | _ => none
 
 def showNats (l : List Nat) : String := if l.isEmpty then "-" else ",".intercalate (l.map toString)
